@@ -777,6 +777,13 @@ impl<T, const K: usize> TreeNode<T, K> {
 //@end
 }
 
+impl<'a, N> EdgeReference<'a, N> {
+//@fn src/tree/graph.rs | impl<'a, N> EdgeReference<'a, N> | edge
+//@spec
+    ensures r.source_idx == self.source_idx, r.label == self.label, r.target_idx == self.target_idx
+//@end
+}
+
 impl<N, const K: usize> Tree<N, K> {
     pub open spec fn wf(&self) -> bool { wf_at(self.arena@, self.root) }
 
@@ -1010,6 +1017,31 @@ impl<N, const K: usize> Tree<N, K> {
         child_removed(old(self).arena@, final(self).arena@, parent, label),
         r == old(self).arena@[old(self).arena@[parent].children[label as int].unwrap()].value,
         final(self).wf(),
+//@end
+
+//@fn src/tree/graph.rs | impl<N, const K: usize> Tree<N, K> | merge_child_with_parent
+//@spec
+    requires old(self).wf(), label < K,
+        // the code asserts this (panics otherwise)
+        old(self).arena@.dom().contains(parent_idx), count_some_from(old(self).arena@[parent_idx].children, 0) == 1,
+    ensures
+        final(self).root == old(self).root,
+        // error leaves the tree unchanged; success splices parent_idx out of the tree
+        merge_post(old(self).arena@, final(self).arena@, parent_idx, label, r is Err),
+        r is Err <==> old(self).root == Some(parent_idx) || old(self).arena@[parent_idx].children[label as int] is None,
+        r matches Ok(nd) ==> nd == old(self).arena@[parent_idx],
+        merge_post(old(self).arena@, final(self).arena@, parent_idx, label, r is Err) ==> final(self).wf(),
+//@hint start
+        proof { lemma_merge_wf_all(old(self).arena@, old(self).root, parent_idx, label); }
+//@hint end
+        proof {
+            let ghost a0 = old(self).arena@;
+            assert(merged(a0, self.arena@.remove(parent_idx), parent_idx, label, grandparent_label as int)) by {
+                let d = choose|d: Map<usize, nat>| ranked(a0, d);
+                assert(a0[child_idx].parent == Some(parent_idx));
+                assert(d[grandparent_idx] < d[parent_idx] && d[parent_idx] < d[child_idx]);
+            }
+        }
 //@end
 
 }
